@@ -107,12 +107,25 @@ theorem sa_eq (b kv p e1 e2 : Nat) (hkv : kv < p) (he : e1 = e2) :
   subst he
   rw [Nat.pow_mod, t_mod b kv p hkv]
 
-theorem iters_eq : Facts.C15.pbkdf2Iters = 100000 ∧ Facts.C15.pbkdf2KeyLen = 64 := by decide
-
 theorem secondary_eq_PH2 (S : SrpPrims) (pw s1 s2 : Bytes) :
     Impl.secondary S pw s1 s2 = Spec.PH2 S pw s1 s2 := by
-  simp [Impl.secondary, Impl.saltHash, Impl.primary, Impl.hash, Spec.PH2, Spec.PH1, Spec.SH, Spec.H,
-    iters_eq.1, iters_eq.2]
+  simp [Impl.secondary, Facts.C15.secondaryT, Facts.C15.saltHashT, Facts.C15.pbkdf2T, Facts.C15.primaryT,
+    Impl.hash, Spec.PH2, Spec.PH1, Spec.SH, Spec.H]
+
+theorem primary_eq_PH1 (S : SrpPrims) (pw s1 s2 : Bytes) :
+    Impl.primary S pw s1 s2 = Spec.PH1 S pw s1 s2 := by
+  simp [Impl.primary, Facts.C15.saltHashT, Facts.C15.primaryT, Impl.hash, Spec.PH1, Spec.SH, Spec.H]
+
+/-- the regenerated operand lists of `SRP.Hash` are the specification's. -/
+theorem operands_spec :
+    Facts.C15.gbSource = .val .srpB ∧ Facts.C15.tSource = .val .srpB ∧
+    Facts.C15.uOperands = [.val .ga, .val .gb] ∧
+    Facts.C15.xvOperands = [.val .password, .val .salt1, .val .salt2] ∧
+    Facts.C15.kOperands = [.val .iP, .val .gBytes] ∧
+    Facts.C15.kaOperand = .val .sa ∧
+    Facts.C15.xorOperands = [.hashed .iP, .hashed .gBytes] ∧
+    Facts.C15.m1Operands = [.val .xorHpHg, .hashed .salt1, .hashed .salt2, .val .ga, .val .gb, .val .ka] := by
+  decide
 
 theorem impl_eq_spec (S : SrpPrims) (hS : LawfulSrp S) (isPrime : Int → Bool)
     (pw srpB random : Bytes) (i : Input) (hp : i.p.length = 256) (hb : beNat srpB < 256 ^ 256)
@@ -123,7 +136,9 @@ theorem impl_eq_spec (S : SrpPrims) (hS : LawfulSrp S) (isPrime : Int → Bool)
   have hpos : 0 < beNat i.p := Nat.lt_of_lt_of_le (Nat.two_pow_pos 2047) hlo
   have hlt : ∀ n, n % beNat i.p < 256 ^ 256 := fun n => Nat.lt_trans (Nat.mod_lt n hpos) hhi
   unfold Impl.srpHash
-  simp only [hgrp, ne_eq, not_true_eq_false, if_false, hS.powMod_eq]
+  obtain ⟨o1, o2, o3, o4, o5, o6, o7, o8⟩ := operands_spec
+  simp only [hgrp, ne_eq, not_true_eq_false, if_false, hS.powMod_eq, o1, o2, o3, o4, o5, o6, o7, o8,
+    Impl.Vals.opnds, Impl.Vals.opnd, Impl.Vals.get, List.map]
   rw [pad256FromBig_of_lt _ (hlt _)]
   simp only
   rw [pad256FromBig_of_lt _ (hlt _)]
